@@ -15,7 +15,7 @@ KINDS = list(I.CLS_OF.keys())
 ELEMENTS = ["Entity", "Activity", "Agent"]
 STRINGS = ["", "plain", 'quo"te', "two\nlines", "back\\slash", "tab\there", "ünïcødé", "\U0001F600 astral", "  spaced ",
            "<a&b>", "'single'", '"""', "a:b", "1", "true", 'multi\n"quoted" line', 'ends with a quote\n"',
-           'a\n"""\nb\\', "\n", "cr\r\nlf"]
+           'a\n"""\nb\\', "\n", "cr\r\nlf", "Ame\u0301lie \u212b"]
 INTS = [0, 1, -1, 7, 2**31, -2**63, 10**40, 255]
 FLOATS = [0.5, -2.25, 1e300, 5e-324, 0.1, 3.0, 123456.789, 1.7976931348623157e308, -0.0, 2.5e-8]
 TIMES = [("2012", "3", "31", "9", "21", "0", "0", "none"), ("2012", "3", "31", "9", "21", "0", "0", "0"),
@@ -26,7 +26,7 @@ TIME_STRS = ["2012-03-31T09:21:00", "2012-03-31T09:21:00Z", "2011-11-16T16:05:00
              "2012-03-04T05:06:07", "2013-10-02T00:00:00+02:00",
              "abc", "not a date"]
 N_VALID_TIME_STRS = 6
-LANGS = ["en", "fr-CA", "x-klingon"]
+LANGS = ["en", "fr-CA", "x-klingon", "en-gb", "EN", "zh-hant-TW", "de-CH-X-Priv"]   # case as typed must survive: not all in the spelling RFC 5646 recommends
 FOREIGN_DT = [("ex", "http://example.org/", "MyType"), ("zz", "http://zz.test/", "T"), ("xsd", "http://www.w3.org/2001/XMLSchema#", "token"),
               ("xsd", "http://www.w3.org/2001/XMLSchema#", "QName")]
 XSD = "http://www.w3.org/2001/XMLSchema#"
